@@ -283,6 +283,9 @@ impl BDF {
             }
         }
 
+        // set when an attempt with the minimal step size fails, cleared by every accepted step
+        let mut failed_at_hmin = false;
+
         'main_loop: loop {
             if steps.total >= nmax {
                 status = Status::NeedLargerNMax;
@@ -304,6 +307,11 @@ impl BDF {
                 lu_is_current = false;  // Step size changed
             }
             if h_try < hmin && hmin > 0.0 {
+                // The step that has just failed was already the smallest one allowed
+                if failed_at_hmin {
+                    status = Status::StepSizeTooSmall;
+                    break;
+                }
                 let factor = (hmin / h_try).max(1.0);
                 change_d(&mut d, order, factor, &mut scratch_change);
                 h_try = hmin;
@@ -381,6 +389,7 @@ impl BDF {
                         current_c = c;
                     }
                     Err(_) => {
+                        failed_at_hmin = hmin > 0.0 && h_try <= hmin;
                         let factor = 0.5;
                         change_d(&mut d, order, factor, &mut scratch_change);
                         current_h *= factor;
@@ -463,6 +472,7 @@ impl BDF {
                 iters += 1;
             }
             if !converged {
+                failed_at_hmin = hmin > 0.0 && h_try <= hmin;
                 // Always refresh Jacobian on Newton failure to handle discontinuities
                 f.jac(x_new, &y_predict, &mut jac);
                 evals.jac += 1;
@@ -496,6 +506,7 @@ impl BDF {
             };
 
             if error_norm > 1.0 {
+                failed_at_hmin = hmin > 0.0 && h_try <= hmin;
                 let mut factor = safety * error_norm.powf(-1.0 / (order as Float + 1.0));
                 factor = factor.max(MIN_FACTOR);
                 change_d(&mut d, order, factor, &mut scratch_change);
@@ -507,6 +518,7 @@ impl BDF {
             }
 
             steps.accepted += 1;
+            failed_at_hmin = false;
             n_equal_steps += 1;
             x = x_new;
             y.copy_from_slice(&y_new);
